@@ -1,7 +1,7 @@
-\* part P: three PEX overlays (1, 2 in swarm 1; 3 in swarm 2), two seeder keys, bounded deque
+\* part P (quick tier): two swarms, two seeder keys, move-to-front and isolation; clock stopped
 SPECIFICATION SpecP
 CONSTANTS
-  T0 = 10  MaxTime = 13
+  T0 = 10  MaxTime = 10
   Peers = {1}  Seeders = {1}  Circuits = {1}
   MaxIpAge = 2  MinDht = 3  MaxDht = 1  Interval = 1  ConnLimit = 1  MaxBytes = 0  MaxResult = 1
   SeedingChoices = {FALSE}
